@@ -8,6 +8,8 @@ Rust anchors
 * `src/sender/sequence.rs`    `SequenceTracker::{insert, get, remove_connection}`
 * `src/sender/mod.rs`         the SIGHUP arm (queues `pending_changes` only on `Apply`) and the
                               housekeeping arm (`pending_changes.take()` → `apply_connection_changes`)
+* `src/sender/housekeeping.rs` / `connections.rs::reconnect_uplink` only as an environment step
+                              (`Op.resock`: new socket under the same key, reset link state)
 
 Model boundary (trusted, fed in as data observed on the real run):
 * `str::lines`, `str::trim`, `IpAddr::from_str` — a file is a list of per-line classifications
@@ -124,6 +126,8 @@ def IoMap.remove (m : IoMap) (k : Nat) : IoMap := m.filter (fun e => e.1 != k)
 def IoMap.insert (m : IoMap) (k v : Nat) : IoMap := (k, v) :: m.remove k
 def IoMap.get (m : IoMap) (k : Nat) : Option Nat := (m.find? (fun e => e.1 == k)).map (·.2)
 def IoMap.keys (m : IoMap) : List Nat := m.map (·.1)
+/-- `*conn_io.get_mut(k) = v` (no effect when the key is absent). -/
+def IoMap.replace (m : IoMap) (k v : Nat) : IoMap := m.map (fun e => if e.1 == k then (k, v) else e)
 
 /-! ## `connections.rs` -/
 
@@ -208,6 +212,9 @@ inductive Op where
   | mutate (idx : Nat) (tok : Nat)
   /-- environment: the selector stored a routing choice. -/
   | select (v : Option Nat)
+  /-- environment: housekeeping reconnect (`reconnect_uplink`): the link at `idx` gets a new socket
+  in place (same `conn_id`, same map key) and a reset protocol state. -/
+  | resock (idx : Nat) (sock tok : Nat)
   deriving Repr
 
 def setState : List Link → Nat → Nat → List Link
@@ -227,6 +234,10 @@ def step (mk : Ip → Label) (s : Sys) : Op → Sys
   | .track seq id ts => { s with tracker := s.tracker.insert seq id ts }
   | .mutate idx tok => { s with links := setState s.links idx tok }
   | .select v => { s with lastSel := v }
+  | .resock idx sock tok =>
+    match s.links[idx]? with
+    | some l => { s with links := setState s.links idx tok, io := s.io.replace l.connId sock }
+    | none => s
 
 def run (mk : Ip → Label) (s : Sys) (ops : List Op) : Sys := ops.foldl (step mk) s
 
